@@ -1,4 +1,17 @@
-import sys, os
+import sys, os, traceback
 sys.path.insert(0, os.path.dirname(os.path.dirname(os.path.abspath(__file__))))
 from pyvc.runner import main
-sys.exit(main())
+from pyvc.values import Unsupported
+try:
+    rc = main()
+except SystemExit:
+    raise
+except Unsupported as e:
+    # code outside the supported subset reached a part of the checker that runs in the main process: nothing is decided
+    print(f"UNDECIDED reason=out of subset: {e}")
+    rc = 2
+except BaseException:  # noqa: BLE001  a crash of the checker is never a verdict about the property
+    traceback.print_exc()
+    print("CHECKER-ERROR uncaught exception in the checker (see the traceback above)")
+    rc = 3
+sys.exit(rc)
